@@ -59,7 +59,7 @@ func (g *pgen) emit(format string, a ...any) {
 	g.lines = append(g.lines, strings.Repeat("\t", g.ind)+fmt.Sprintf(format, a...))
 }
 
-func (g *pgen) fresh() int { g.next++; return g.next }
+func (g *pgen) fresh() int  { g.next++; return g.next }
 func (g *pgen) top() gscope { return g.scopes[len(g.scopes)-1] }
 func (g *pgen) pushBlock() (restore func()) {
 	n := len(g.vals)
